@@ -786,7 +786,51 @@ impl Scenario for RxSim {
             st.nontrivial = n > 0;
             return None;
         }
+        // C08: fail each call across the GseDecapMemory seam in turn (complete enumeration around a base history)
+        let mfenum = p.cfg.get_u("mfenum") == 1;
+        if mfenum && variant == 0 {
+            let mut base = p.clone();
+            base.cfg.set_u("variant", u64::MAX);
+            let mut s0 = Stats::default();
+            if let Some(v) = self.execute(&base, target, &mut s0) {
+                st.merge(&s0);
+                return Some(v);
+            }
+            let counts = [
+                *s0.c.get("trait_calls.provision").unwrap_or(&0),
+                *s0.c.get("trait_calls.new_pdu").unwrap_or(&0),
+                *s0.c.get("trait_calls.new_frag").unwrap_or(&0),
+                *s0.c.get("trait_calls.take_frag").unwrap_or(&0),
+            ];
+            st.merge(&s0);
+            st.inc("memory_fault_neighbourhoods");
+            let mut logx = s0.log;
+            for (opk, n) in counts.iter().enumerate() {
+                for nth in 0..(*n).min(400) {
+                    let mut q = p.clone();
+                    q.cfg.set_u("variant", 1 + opk as u64 * 100_000 + nth);
+                    let mut s2 = Stats::default();
+                    let v = self.execute(&q, target, &mut s2);
+                    logx ^= s2.log.wrapping_mul(2 * (opk as u64 * 1000 + nth) + 1);
+                    s2.nontrivial = false;
+                    st.merge(&s2);
+                    st.inc("memory_faults_enumerated");
+                    if let Some(mut v) = v {
+                        v.reduced = Some(Box::new(q));
+                        return Some(v);
+                    }
+                }
+            }
+            st.log = logx;
+            st.nontrivial = counts.iter().sum::<u64>() > 0;
+            return None;
+        }
         let mut prog_ops: Vec<Op> = p.ops.clone();
+        if mfenum && variant != u64::MAX && variant > 0 {
+            let opk = (variant - 1) / 100_000;
+            let nth = (variant - 1) % 100_000;
+            prog_ops.insert(0, Op::new("memfault").u("op", opk).u("nth", nth));
+        }
         if nb {
             // apply member `variant-1` to the feed sequence
             let pkts: Vec<Vec<u8>> = p.ops.iter().filter(|o| o.name == "feed").map(|o| o.get_h("hex").to_vec()).collect();
@@ -810,6 +854,13 @@ impl Scenario for RxSim {
         let mut w = World { target, rx, refrx: RefRx::default(), table, allowed: None, bufsize, log: H64::new(), decaps: 0, completed: 0, faults_in_train: 0, rejected_after_take: 0, viol: None, prefix: vec![], cfg: p.cfg.clone() };
         if target == "C08" {
             w.rx.led.borrow_mut().keep_trace = false;
+        }
+        if mfenum && variant != u64::MAX && variant > 0 {
+            // armed before the initial provisioning so that those calls are part of the enumeration
+            let opk = (variant - 1) / 100_000;
+            let nth = (variant - 1) % 100_000;
+            w.rx.led.borrow_mut().arm(MemOp::from_u(opk), nth);
+            prog_ops.remove(0);
         }
         for _ in 0..nbuf {
             let _ = w.rx.provision(bufsize);
@@ -1052,6 +1103,18 @@ impl Scenario for RxSim {
             let _ = w.audit(st, "final");
         }
         st.add("decap_calls", w.decaps);
+        for (k, v) in w.rx.led.borrow().calls.iter() {
+            st.add(
+                match k {
+                    MemOp::Provision => "trait_calls.provision",
+                    MemOp::NewPdu => "trait_calls.new_pdu",
+                    MemOp::NewFrag => "trait_calls.new_frag",
+                    MemOp::TakeFrag => "trait_calls.take_frag",
+                    MemOp::SaveFrag => "trait_calls.save_frag",
+                },
+                *v,
+            );
+        }
         st.nontrivial = match target {
             "C03" => w.faults_in_train >= 1,
             "C04" => reuse_met_state,
@@ -1098,7 +1161,7 @@ pub mod gen {
     }
 
     fn cfg(slots: usize, maxpdu: usize, bufsize: usize, nbuf: usize, table: &ExtTable) -> Op {
-        let mut o = Op::new("cfg").u("slots", slots as u64).u("maxpdu", maxpdu as u64).u("bufsize", bufsize as u64).u("nbuf", nbuf as u64).u("nbhd", 0).u("variant", 0);
+        let mut o = Op::new("cfg").u("slots", slots as u64).u("maxpdu", maxpdu as u64).u("bufsize", bufsize as u64).u("nbuf", nbuf as u64).u("nbhd", 0).u("mfenum", 0).u("variant", 0);
         if !table.entries.is_empty() {
             o = o.h("table", enc_table(table));
         }
@@ -1691,7 +1754,15 @@ pub mod gen {
             }
         }
         ops.push(Op::new("ret").u("n", 16));
-        Program { scenario: "rxsim", cfg: cfg(slots, maxpdu, maxpdu + rng.usize_in(0, 1), nbuf, &table), ops }
+        let mut c = cfg(slots, maxpdu, maxpdu + rng.usize_in(0, 1), nbuf, &table);
+        if idx % 40 == 7 {
+            // base history for the complete enumeration of single memory faults: keep it short, no other faults
+            ops.retain(|o| o.name != "memfault");
+            ops.truncate(30);
+            ops.push(Op::new("ret").u("n", 16));
+            c.set_u("mfenum", 1);
+        }
+        Program { scenario: "rxsim", cfg: c, ops }
     }
 
     fn gen_c16(rng: &mut Rng) -> Program {
